@@ -135,6 +135,30 @@ func genC03(g *Gen) {
 		}
 		g.end()
 	}
+	// later keys decide between rows that are tied on the earlier ones - also where the tie is null = null
+	for rep := 0; rep < g.pick(60, 600); rep++ {
+		n := 3 + g.rng.Intn(6)
+		k1, k3 := make([]int64, n), make([]int64, n)
+		f2 := make([]string, n)
+		s2 := make([]*BS, n)
+		for i := 0; i < n; i++ {
+			k1[i], k3[i] = int64(g.rng.Intn(2)), int64(g.rng.Intn(n))
+			f2[i] = []string{"NaN", "NaN", "1.5", "0"}[g.rng.Intn(4)]
+			if g.rng.Intn(2) == 0 {
+				s2[i] = bsp([]string{"p", "q"}[g.rng.Intn(2)])
+			}
+		}
+		g.begin("sort by three keys")
+		f := g.do(Step{Op: "New", Recv: -1, HasOrder: true, ColOrder: bsList([]string{"K1", "F2", "S2", "K3"}), HasEnums: g.rng.Intn(2) == 0,
+			Enums: []EnumDecl{{Name: toBS("S2"), Vals: nil}},
+			Data: []ColData{{Name: toBS("K1"), Kind: "int", Ints: k1}, {Name: toBS("F2"), Kind: "float", Floats: f2}, {Name: toBS("S2"), Kind: "string", Strs: s2}, {Name: toBS("K3"), Kind: "int", Ints: k3}}})
+		f = g.do(Step{Op: "WithRowNums", Recv: f, Dst: rid})
+		for _, mid := range []string{"F2", "S2"} {
+			g.do(Step{Op: "Sort", Recv: f, Orders: []Order{{Col: toBS("K1")}, {Col: toBS(mid), NullLast: g.rng.Intn(2) == 0, Rev: g.rng.Intn(3) == 0}, {Col: toBS("K3"), Rev: g.rng.Intn(2) == 0}, {Col: rid}}, Rid: rid})
+			g.do(Step{Op: "Sort", Recv: f, Orders: []Order{{Col: toBS(mid)}, {Col: toBS("K3")}, {Col: rid, Rev: true}}, Rid: rid})
+		}
+		g.end()
+	}
 	g.sortArranged(rid)
 	g.sortExtremes(rid)
 	g.sortTiePatterns(rid)
